@@ -135,7 +135,7 @@ def work(shard, res, tier, seed):
     res.count("ambiguous_completion_bases", len(extra))
     bases = [(t, rx) for t, rx in list(shard["bases"]) + extra if oracle.in_domain_rsmi(rx)]
     cfg = {"batch_size": None, "threshold": 0, "n_jobs": 1}
-    groups = []
+    groups, others = [], []
     for i in range(0, len(bases), 25):
         chunk = bases[i:i + 25]
         case = {"inputs": [rx for _, rx in chunk], "cfg": cfg}
@@ -152,6 +152,35 @@ def work(shard, res, tier, seed):
             if row.get("solved") and row.get("solved_by") in ("input-balanced", "rule-based"):
                 groups.append((rx, row, additions(out, pos, row["input_reaction"])))
                 res.count("bases:%s" % row["solved_by"])
+            elif pos % 3 == 0:
+                # the property speaks about the reaction, not about this spelling of it: if another
+                # spelling has a composition-determined outcome, this one must have it too
+                others.append(rx)
+    # 1b) bases with another outcome: do two re-spellings get a composition-determined one?
+    for rx in others:
+        vs = variants(rx, rng, 2)
+        if not vs:
+            continue
+        case = {"inputs": [rx] + vs, "cfg": cfg}
+        try:
+            with common.alarm(120):
+                out = rowlib.run_case(case)
+        except common.Watchdog:
+            res.count("watchdog(inconclusive)")
+            continue
+        if not rowlib.aligned(case, out):
+            continue
+        rows = out["rows"]
+        if any(isinstance(r.get("issue"), str) and "timeout" in r["issue"].lower() for r in rows):
+            continue
+        base_v = (rows[0].get("solved"), rows[0].get("solved_by"))
+        for pos in range(1, len(rows)):
+            res.ev()
+            res.count("variants_of_other_outcomes_evaluated")
+            got_v = (rows[pos].get("solved"), rows[pos].get("solved_by"))
+            if got_v[0] and got_v[1] in ("input-balanced", "rule-based") and got_v != base_v:
+                res.viol("verdict_depends_on_spelling", base=list(base_v), variant=list(got_v),
+                         case={"base": rx, "variant": vs[pos - 1]}, base_row=rows[0], variant_row=rows[pos])
     # 2) run base + variants together, compare
     for rx, brow, badd in groups:
         vs = variants(rx, rng, shard["k"])
